@@ -132,7 +132,7 @@ def run(ctx):
     mc(ctx)
     q = ctx.quick
     streams = 4 if q else 16
-    per = 600 if q else 9000
+    per = 600 if q else 5000
     jobs = [("c09", ["--mode", "corners", "--reps", 2 if q else 12], "corners.ndjson")]
     jobs += [("c09", ["--mode", "random", "--n", per, "--stream", k], "rand%02d.ndjson" % k) for k in range(streams)]
     paths = ctx.record_many(jobs, parallel=4 if q else 16)
@@ -152,7 +152,7 @@ def run(ctx):
         "the location graph handed to TLC is what falcon's RefProgramLocation::forward/backward return (their correctness is C18)",
         "the recorder's lattice order/join and table lookup are re-checked by Trace_C09 (join = lattice join, trans = table row)",
         "a solver call is declared non-terminating after 1000 trans calls (more than 2x the bound of any de-duplicating schedule, checked per session)",
-        "bounded: graphs of <= 20 locations, lattices of height <= 3; MC exhaustive for <= 3 locations only",
+        "bounded: graphs of <= 24 locations, lattices of height <= 3; MC exhaustive for <= 3 locations only",
     ]
 
 
